@@ -144,6 +144,26 @@ def check(recipe) -> list[Fail]:
                     return
                 if not compare(got, i, route):
                     return
+                # what was read is the caller's own object: editing it in place and asking for the same key again
+                # (nothing else in between) still yields what is STORED
+                try:
+                    import numpy as np
+                    got.name = "edited-after-read"
+                    got.charge = got.charge + 3
+                    with np.errstate(all="ignore"):
+                        got.coords = np.asarray(got.coords) * 0 + 7.5
+                    if got.n_atoms:
+                        got.atoms[0].label = "EDITED"
+                    if got.n_bonds:
+                        got.bonds[0].label = "EDITED"
+                    again = handle[k]
+                except Exception as e:
+                    from vf.core import exc_sig
+                    fails.append(Fail(f"{kind}_v{v}:cannot-read-back-twice:{exc_sig(e) or type(e).__name__}", f"key {k!r} via {route}: {e!r}"))
+                    return
+                if not compare(again, i, route + ", second read after the first result was edited in place"):
+                    fails[-1].sig = fails[-1].sig.replace("field-differs", "second-read-differs")
+                    return
 
         try:
             with lib.writing():
